@@ -92,7 +92,7 @@ class RefParty:
         return ikecrypto.sk_open(data, *self.peer_dir())
 
     # ------------------------------------------------------------------ responder role
-    def respond_init(self, request, prefer=None, notify_only=None, force_transforms=None, force_proto=1, force_suite=None):
+    def respond_init(self, request, prefer=None, notify_only=None, force_transforms=None, force_proto=1, force_suite=None, proposal_spi=b''):
         """IKE_SA_INIT response to `request` (bytes). Returns response bytes."""
         self.is_initiator = False
         m = codec.decode(request, strict_bodies=False)
@@ -108,7 +108,7 @@ class RefParty:
         self.init_req = bytes(request)
         pub = self._new_dh(ke['group'])
         res = {'spi_i': self.spi_i, 'spi_r': self.spi_r, 'major': 2, 'minor': 0, 'exch': 34, 'flags': 0x20, 'mid': 0, 'payloads': [
-            {'type': codec.SA, 'critical': False, 'proposals': [{'num': pr['num'], 'proto': force_proto, 'spi': b'', 'transforms': chosen}]},
+            {'type': codec.SA, 'critical': False, 'proposals': [{'num': pr['num'], 'proto': force_proto, 'spi': proposal_spi, 'transforms': chosen}]},
             {'type': codec.NONCE, 'critical': False, 'data': self.nr},
             {'type': codec.KE, 'critical': False, 'group': ke['group'], 'data': pub}]}
         self.init_res = codec.encode_clear(res)
